@@ -218,6 +218,9 @@ func newBscChain(rng *rand.Rand, now uint64, root common.Hash, hint string) *bsc
 	default:
 		number = c.epoch * uint64(100000+rng.Intn(100000))
 	}
+	if hint == "zero" {
+		number = 0 // block 0 is an epoch block
+	}
 	c.anchor(rng, number, now-600, root, rnd(rng, 32), 30000000+uint64(rng.Intn(1<<20)))
 	return c
 }
